@@ -420,6 +420,29 @@ func (c *cluster) harvestAckEmitted(s *rstream, off int64, synced int64) {
 					what = fmt.Sprintf("entry %s is appended, no completed sync covers it", pend[i].tok())
 				}
 			}
+			if pe == nil {
+				// Nothing was appended.  A follower that starts on an EMPTY WAL takes its database's commit offset for
+				// its head ("restored from a snapshot") and acknowledges every offset up to it as a duplicate.  When the
+				// WAL is empty because the entries the database had applied were rolled back (figure 8: the database's
+				// commit offset stays), that is a consequence of the rollback, judged where it happened.
+				dbc := fn.followerCommit()
+				violMu.Lock()
+				judged := c.figure8 || c.tainted != "" || c.diskSoft
+				if judged && dbc >= off {
+					c.secondary = append(c.secondary, "ack:follower-acked-unsynced-entry(database-ahead-of-rolled-back-log)")
+					if c.tainted == "" {
+						c.tainted = "consequence:follower-database-ahead-of-rolled-back-log"
+					}
+				}
+				violMu.Unlock()
+				if judged && dbc >= off {
+					c.event("ack-emitted %d>%d term=%d offset=%d: the follower's WAL is empty, its database's commit offset is %d (entries it had applied were rolled back): acknowledged as a duplicate without being stored", s.to, s.from, s.term, off, dbc)
+					return
+				}
+				if dbc >= off {
+					what = fmt.Sprintf("the entry is not in its WAL at all; its database's commit offset is %d: it takes the offset for a duplicate of what a snapshot gave it", dbc)
+				}
+			}
 			c.violate("ack:follower-acked-unsynced-entry", fmt.Sprintf(
 				"term %d: follower %d sent the acknowledgement of offset %d to leader %d while its WAL was synced up to offset %d only (%s; synced log %s, appended and not synced %s): the leader counts this copy for the quorum, a power loss of the follower before its next sync completes takes the entry away",
 				s.term, s.to, off, s.from, synced, what, logTok(lg), logTok(pend)))
